@@ -559,3 +559,155 @@ def _cpu(lib, run, recv, args, kw):
 
 def call_opaque(lib, run, f, args, kwargs):
     raise Unsupported('call of opaque value %s' % f.what)
+
+
+# ------------------------------------------------------------------------------------- random streams
+# np.random.Generator is modelled by an abstract stream state: every draw is value = draw_k(state, params) and
+# state' = next_k(state, params) with uninterpreted draw/next (DESIGN 2.2).  Only range facts NumPy documents
+# are assumed.  The ghost draw log (run.st.draws) records (generator, kind, params) per path.
+def _rs(run, gen):
+    return run.deref(gen).fields['state'].term
+
+
+def _set_rs(run, gen, term):
+    run.write_field(gen, 'state', OpaqueV(term, 'rngstate'))
+
+
+draw_u = F('draw_u', Rng, Real)
+next_u = F('next_u', Rng, Rng)
+draw_uv = F('draw_uv', Rng, Int, RSeq)
+next_uv = F('next_uv', Rng, Int, Rng)
+draw_um = F('draw_um', Rng, Int, Int, Mat)
+next_um = F('next_um', Rng, Int, Int, Rng)
+_s = z3.Const('s', Rng)
+_n, _m2 = z3.Ints('n m')
+mat_at = F('mat_at', Mat, Int, Int, Real)
+axiom('draw_u.range', forall([_s], z3.And(draw_u(_s) >= 0, draw_u(_s) < 1), [draw_u(_s)]), ['draw_u'], 'numpy')
+axiom('draw_uv.len', forall([_s, _n], z3.Implies(_n >= 0, T.rlen(draw_uv(_s, _n)) == _n), [draw_uv(_s, _n)]),
+      ['draw_uv'], 'numpy')
+axiom('draw_uv.range', forall([_s, _n, _i], z3.And(T.rat(draw_uv(_s, _n), _i) >= 0, T.rat(draw_uv(_s, _n), _i) < 1),
+                              [T.rat(draw_uv(_s, _n), _i)]), ['draw_uv'], 'numpy')
+axiom('draw_um.shape', forall([_s, _n, _m2], z3.Implies(z3.And(_n >= 0, _m2 >= 0),
+                                                        z3.And(mrows(draw_um(_s, _n, _m2)) == _n,
+                                                               mcols(draw_um(_s, _n, _m2)) == _m2)),
+                              [draw_um(_s, _n, _m2)]), ['draw_um'], 'numpy')
+_M = z3.Const('M', Mat)
+_j = z3.Int('j')
+mrow = F('mrow', Mat, Int, RSeq)
+axiom('mrow.len', forall([_M, _i], T.rlen(mrow(_M, _i)) == mcols(_M), [mrow(_M, _i)]), ['mrow'], 'numpy')
+axiom('mrow.at', forall([_M, _i, _j], T.rat(mrow(_M, _i), _j) == mat_at(_M, _i, _j), [T.rat(mrow(_M, _i), _j)]),
+      ['mrow'], 'numpy')
+
+
+def _size(v):
+    """size argument -> None | ('n', term) | ('mn', t1, t2)"""
+    if v is None or isinstance(v, NoneV):
+        return None
+    if isinstance(v, Num):
+        return ('n', intterm(v))
+    if isinstance(v, TupleV) and len(v.items) == 2:
+        return ('mn', intterm(v.items[0]), intterm(v.items[1]))
+    if isinstance(v, TupleV) and len(v.items) == 1:
+        return ('n', intterm(v.items[0]))
+    raise Unsupported('size argument %r' % (v,))
+
+
+def _arg(args, kw, i, name, default=None):
+    if len(args) > i:
+        return args[i]
+    return kw.get(name, default)
+
+
+@reg('np.random.default_rng')
+def _default_rng(lib, run, recv, args, kw):
+    seed = args[0]
+    return run.st.alloc(Obj('np.Generator', {'state': OpaqueV(T.rng_init(intterm(seed)), 'rngstate')}))
+
+
+@reg('np.Generator.random')
+def _gen_random(lib, run, recv, args, kw):
+    s = _rs(run, recv)
+    size = _size(_arg(args, kw, 0, 'size'))
+    run.st.draws.append(('uniform', size))
+    if size is None:
+        _set_rs(run, recv, next_u(s))
+        return Num(draw_u(s))
+    if size[0] == 'n':
+        _set_rs(run, recv, next_uv(s, size[1]))
+        return SeqV('R', draw_uv(s, size[1]))
+    _set_rs(run, recv, next_um(s, size[1], size[2]))
+    return MatV(draw_um(s, size[1], size[2]))
+
+
+draw_dir = F('draw_dirichlet', Rng, RSeq, Int, Mat)
+next_dir = F('next_dirichlet', Rng, RSeq, Int, Rng)
+_al = z3.Const('al', RSeq)
+axiom('draw_dirichlet.shape', forall([_s, _al, _n], z3.Implies(_n >= 0, z3.And(mrows(draw_dir(_s, _al, _n)) == _n,
+                                                                                mcols(draw_dir(_s, _al, _n)) == T.rlen(_al))),
+                                     [draw_dir(_s, _al, _n)]), ['draw_dirichlet'], 'numpy')
+
+
+@reg('np.Generator.dirichlet')
+def _gen_dirichlet(lib, run, recv, args, kw):
+    s = _rs(run, recv)
+    alpha = lib.as_seq(run, _arg(args, kw, 0, 'alpha'))
+    size = _size(_arg(args, kw, 1, 'size'))
+    if alpha is None or alpha.kind != 'R' or size is None or size[0] != 'n':
+        raise Unsupported('dirichlet arguments')
+    run.st.draws.append(('dirichlet', alpha.term, size[1]))
+    _set_rs(run, recv, next_dir(s, alpha.term, size[1]))
+    return MatV(draw_dir(s, alpha.term, size[1]))
+
+
+draw_beta = F('draw_beta', Rng, Real, Real, Int, RSeq)
+next_beta = F('next_beta', Rng, Real, Real, Int, Rng)
+_a, _b = z3.Reals('a b')
+axiom('draw_beta.len', forall([_s, _a, _b, _n], z3.Implies(_n >= 0, T.rlen(draw_beta(_s, _a, _b, _n)) == _n),
+                              [draw_beta(_s, _a, _b, _n)]), ['draw_beta'], 'numpy')
+
+
+@reg('np.Generator.beta')
+def _gen_beta(lib, run, recv, args, kw):
+    s = _rs(run, recv)
+    a, b = real(args[0]), real(args[1])
+    size = _size(_arg(args, kw, 2, 'size'))
+    if size is None or size[0] != 'n':
+        raise Unsupported('beta size')
+    if not run.spec_mode:
+        run.emit('safe.beta', z3.And(a > 0, b > 0), 'beta parameters are positive')
+    run.st.draws.append(('beta', a, b, size[1]))
+    _set_rs(run, recv, next_beta(s, a, b, size[1]))
+    return SeqV('R', draw_beta(s, a, b, size[1]))
+
+
+draw_int = F('draw_integers', Rng, Int, Int, ISeq)
+next_int = F('next_integers', Rng, Int, Int, Rng)
+draw_int0 = F('draw_integer', Rng, Int, Int, Int)
+next_int0 = F('next_integer', Rng, Int, Int, Rng)
+_lo, _hi = z3.Ints('lo hi')
+axiom('draw_integers.len', forall([_s, _hi, _n], z3.Implies(_n >= 0, ilen(draw_int(_s, _hi, _n)) == _n),
+                                  [draw_int(_s, _hi, _n)]), ['draw_integers'], 'numpy')
+axiom('draw_integer.range', forall([_s, _lo, _hi], z3.Implies(_lo < _hi, z3.And(_lo <= draw_int0(_s, _lo, _hi),
+                                                                                 draw_int0(_s, _lo, _hi) < _hi)),
+                                   [draw_int0(_s, _lo, _hi)]), ['draw_integer'], 'numpy')
+
+
+@reg('np.Generator.integers')
+def _gen_integers(lib, run, recv, args, kw):
+    s = _rs(run, recv)
+    low = _arg(args, kw, 0, 'low')
+    high = _arg(args, kw, 1, 'high')
+    size = _size(_arg(args, kw, 2, 'size'))
+    if high is None or isinstance(high, NoneV):
+        lo_t, hi_t = z3.IntVal(0), intterm(low)
+    else:
+        lo_t, hi_t = intterm(low), intterm(high)
+    if size is None:
+        run.st.draws.append(('integer', lo_t, hi_t))
+        _set_rs(run, recv, next_int0(s, lo_t, hi_t))
+        return Num(draw_int0(s, lo_t, hi_t))
+    if size[0] == 'n' and z3.is_int_value(z3.simplify(lo_t)) and z3.simplify(lo_t).as_long() == 0:
+        run.st.draws.append(('integers', hi_t, size[1]))
+        _set_rs(run, recv, next_int(s, hi_t, size[1]))
+        return SeqV('I', draw_int(s, hi_t, size[1]))
+    raise Unsupported('integers arguments')
